@@ -36,9 +36,10 @@ def relayout(a, kind):
     raise KeyError(kind)
 
 
-def geo(g, layout="C"):
+def geo(g, layout="C", f32=False):
     if g["kind"] == "swath":
-        return geometry.SwathDefinition(lons=relayout(arr(g["lons"]), layout), lats=relayout(arr(g["lats"]), layout))
+        dt = np.float32 if f32 else np.float64
+        return geometry.SwathDefinition(lons=relayout(arr(g["lons"], dt), layout), lats=relayout(arr(g["lats"], dt), layout))
     return geometry.AreaDefinition("a", "a", "a", g["proj"], g["width"], g["height"], [unhex(v) for v in g["extent"]])
 
 
@@ -131,7 +132,7 @@ def run_case(c):
 
 
 def run_case_layout(c, layout, coord_layout, primary):
-    src, tgt = geo(c["src"], coord_layout), geo(c["tgt"], coord_layout)
+    src, tgt = geo(c["src"], coord_layout, c.get("src_f32")), geo(c["tgt"], coord_layout, c.get("tgt_f32"))
     dtype = np.dtype(c["dtype"])
     data = relayout(arr(c["data"], dtype), layout)
     if c.get("mask") is not None:
@@ -160,7 +161,9 @@ def run_case_layout(c, layout, coord_layout, primary):
     out["valid_in"] = [int(bool(v)) for v in vin]
     out["valid_out"] = [int(bool(v)) for v in vout]
     index2 = np.asarray(index).reshape(len(index), k)
-    dist2 = np.asarray(dist, dtype=np.float64).reshape(len(index), k)
+    dist_raw = np.asarray(dist).reshape(len(index), k)      # in the kd-tree's dtype (float32 for float32 source geometry)
+    dist2 = np.asarray(dist_raw, dtype=np.float64)
+    out["dist_dtype"] = str(dist_raw.dtype)
     out["index"] = [[int(v) for v in row] for row in index2]
     out["dist"] = [[hx(v) for v in row] for row in dist2]
     out["index_ndim"] = int(np.asarray(index).ndim)
@@ -169,7 +172,7 @@ def run_case_layout(c, layout, coord_layout, primary):
     # the distances the weight functions are called with (missing -> 1)
     dcols = []
     for i in range(index2.shape[1]):
-        dcol = dist2[:, i].copy()
+        dcol = dist_raw[:, i].copy()
         dcol[index2[:, i] == n_valid] = 1
         dcols.append(dcol)
 
